@@ -42,7 +42,7 @@ fn snapshot(w: &World, accounts: &[String]) -> Bal {
 }
 
 fn run_inst(members: &[(String, u64)]) -> Outcome {
-    let (gok, sok) = match instantiate_existing(&Some(ADMIN.to_string()), &Some(GADMIN.to_string()), members) {
+    let (gok, sok) = match instantiate_existing(&Some(ADMIN.to_string()), &Some(GADMIN.to_string()), members, &[]) {
         Ok(_) => (true, true),
         Err("group") => (false, false),
         Err(_) => (true, false),
@@ -57,8 +57,8 @@ fn run_inst(members: &[(String, u64)]) -> Outcome {
 
 fn run_hist(h: &Hist) -> Outcome {
     let made = match h.mode {
-        Mode::Existing => instantiate_existing(&h.admin, &h.gadmin, &h.members),
-        Mode::Reply => instantiate_reply(&h.admin, &h.gadmin, &h.members),
+        Mode::Existing => instantiate_existing(&h.admin, &h.gadmin, &h.members, &h.inst_funds),
+        Mode::Reply => instantiate_reply(&h.admin, &h.gadmin, &h.members, &h.inst_funds),
     };
     let mut w = match made {
         Ok(w) => w,
@@ -84,6 +84,40 @@ fn run_hist(h: &Hist) -> Outcome {
     let mut ledger_admin: Option<String> = h.admin.clone();
     let mut ledger_members: BTreeMap<String, u64> = h.members.iter().map(|(a, x)| (resolve(a, &me), *x)).collect();
     let ledger_group = w.group.to_string();
+    // coins ever sent to the splits contract (attached to its instantiation or deposited) and
+    // coins members received from its distributions, per denom
+    let mut ever_sent = [0u128; 4];
+    let mut paid_out = [0u128; 4];
+    for (d, a) in &h.inst_funds {
+        ever_sent[*d] += *a;
+    }
+    let coins_check = |w: &World, ever_sent: &[u128; 4], paid_out: &[u128; 4], viol: &mut Vec<(String, String)>, at: String| {
+        for d in 0..DENOMS.len() {
+            let held = w.bal(&me, d);
+            if held.saturating_add(paid_out[d]) < ever_sent[d] {
+                viol.push(("C15:coins-lost".to_string(), format!("{}: {} {} were sent to the splits contract (instantiation + deposits), it holds {} and members were paid {}", at, ever_sent[d], DENOMS[d], held, paid_out[d])));
+            } else if held.saturating_add(paid_out[d]) > ever_sent[d] {
+                viol.push(("C15:coins-created".to_string(), format!("{}: {} {} were sent to the splits contract, it holds {} and members were paid {}", at, ever_sent[d], DENOMS[d], held, paid_out[d])));
+            }
+            for (who, a) in [("the cw4 group", w.group.as_str()), ("the other cw4 group", w.decoy.as_str())] {
+                let x = w.bal(a, d);
+                if x != 0 {
+                    viol.push(("C15:group-holds-coins".to_string(), format!("{}: {} ({}) holds {} {}", at, who, a, x, DENOMS[d])));
+                }
+            }
+        }
+    };
+    coins_check(&w, &ever_sent, &paid_out, &mut viol, format!("right after instantiating with {:?}", h.inst_funds));
+    let used0: BTreeSet<usize> = h.ops.iter().filter_map(|o| if let Op::Deposit { denom, .. } = o { Some(*denom) } else { None }).chain(h.inst_funds.iter().map(|(d, _)| *d)).collect();
+    let mut bal0: Vec<String> = vec![];
+    for d in used0.iter() {
+        bal0.push(format!("({}, {}, {})", SELF_ID, denom_id(*d), w.bal(&me, *d)));
+        bal0.push(format!("(6, {}, {})", denom_id(*d), w.bal(w.group.as_str(), *d)));
+        bal0.push(format!("(7, {}, {})", denom_id(*d), w.bal(w.decoy.as_str(), *d)));
+        for a in accounts.iter().filter(|a| **a != me) {
+            bal0.push(format!("({}, {}, {})", addr_id(a), denom_id(*d), w.bal(a, *d)));
+        }
+    }
     for (i, op) in h.ops.iter().enumerate() {
         // a migration's stored cw2 info is written by the harness before the step proper
         let mut cw2_now = (String::new(), String::new());
@@ -129,6 +163,17 @@ fn run_hist(h: &Hist) -> Outcome {
         }
         // ---- after
         let after = snapshot(&w, &accounts);
+        if let Op::Deposit { denom, amt } = op {
+            ever_sent[*denom] += *amt;
+        }
+        if let (true, Op::Distribute { .. }) = (ok, op) {
+            for d in 0..DENOMS.len() {
+                for a in accounts.iter().filter(|a| **a != me) {
+                    paid_out[d] += after[&(a.clone(), d)].saturating_sub(before[&(a.clone(), d)]);
+                }
+            }
+        }
+        coins_check(&w, &ever_sent, &paid_out, &mut viol, format!("after step {} {:?}", i, op));
         let page = w.splits_page();
         let total = w.group_total();
         let admin_after = w.splits_admin();
@@ -273,7 +318,7 @@ fn run_hist(h: &Hist) -> Outcome {
                 format!("(Some (Ok {}))", coq_list(&ms.iter().map(|(t, d, a)| format!("Send {} {} {}", t, d, a)).collect::<Vec<_>>()))
             }
         };
-        let used: BTreeSet<usize> = h.ops.iter().filter_map(|o| if let Op::Deposit { denom, .. } = o { Some(*denom) } else { None }).collect();
+        let used: BTreeSet<usize> = used0.clone();
         let bals = coq_list(
             &after.iter().filter(|((_, d), _)| used.contains(d)).map(|((a, d), x)| format!("({}, {}, {})", addr_id(a), denom_id(*d), x)).collect::<Vec<_>>(),
         );
@@ -296,12 +341,14 @@ fn run_hist(h: &Hist) -> Outcome {
     }
     Outcome {
         coq: format!(
-            "CHistM {} {} {} {} {} {}",
+            "CHistF {} {} {} {} {} {} {} {}",
             SELF_ID,
             addr_id(WASM_ADMIN),
             coq_opt_addr(&h.admin),
             coq_opt_addr(&h.gadmin),
             coq_members(&h.members),
+            coq_list(&h.inst_funds.iter().map(|(d, a)| format!("mkCoin {} {}", denom_id(*d), a)).collect::<Vec<_>>()),
+            coq_list(&bal0),
             coq_list(&steps_coq)
         ),
         viol,
@@ -356,7 +403,7 @@ fn upd(adds: Vec<(String, u64)>, rems: Vec<String>) -> Op {
     Op::UpdateMembers { sender: GADMIN.to_string(), adds, rems }
 }
 fn hist(mode: Mode, admin: Option<String>, members: Vec<(String, u64)>, ops: Vec<Op>) -> Case {
-    Case::Hist(Hist { mode, admin, gadmin: some(GADMIN), members, ops })
+    Case::Hist(Hist { mode, admin, gadmin: some(GADMIN), members, ops, inst_funds: vec![] })
 }
 fn total(ms: &[(String, u64)]) -> u128 {
     ms.iter().map(|(_, w)| *w as u128).sum()
@@ -446,6 +493,48 @@ fn migration_corpus(code: &str) -> Vec<Case> {
             dep(2, 5000), migr(WASM_ADMIN, Some(older)), dist(ADMIN2, None), dist(ADMIN, None),
             upd(vec![mem(25, 1)], vec![]), migr(WASM_ADMIN, None), dep(2, 5000), dist(ADMIN, None),
         ]));
+    }
+    c
+}
+
+
+/// splits instantiated with coins attached (none / one denom / two denoms) on both paths,
+/// then the usual life: the attached coins are a deposit like any other
+fn funded_corpus(code: &str) -> Vec<Case> {
+    let mut c = vec![];
+    let g3 = vec![mem(1, 50), mem(2, 30), mem(3, 20)];
+    let fundsets: Vec<Vec<(usize, u128)>> = vec![vec![], vec![(2, 479)], vec![(1, 777), (2, 479)], vec![(0, 99)], vec![(3, 100), (0, 101), (2, 1_000_000)]];
+    for mode in [Mode::Existing, Mode::Reply] {
+        for f in &fundsets {
+            for admin in [some(ADMIN), None] {
+                let who = if admin.is_some() { ADMIN.to_string() } else { member_name(2) };
+                let mut h = Hist {
+                    mode,
+                    admin: admin.clone(),
+                    gadmin: some(GADMIN),
+                    members: g3.clone(),
+                    ops: vec![
+                        dist(&who, None),
+                        dist(&who, None),
+                        dep(2, 1021),
+                        migr(WASM_ADMIN, Some((SPLITS_NAME, "3.9.0"))),
+                        dist(&who, Some(vec![2, 1])),
+                        upd(vec![mem(4, 7)], vec![member_name(1)]),
+                        dep(0, 58),
+                        dist(&who, None),
+                        migr(WASM_ADMIN, Some((SPLITS_NAME, code))),
+                        dist(&who, None),
+                    ],
+                    inst_funds: f.clone(),
+                };
+                c.push(Case::Hist(h.clone()));
+                // a single member group and the cap
+                h.members = vec![mem(1, 1)];
+                h.ops.truncate(3);
+                c.push(Case::Hist(h));
+            }
+        }
+        c.push(Case::Hist(Hist { mode, admin: some(ADMIN), gadmin: some(GADMIN), members: group_of(25, |i| i + 1), ops: vec![dist(ADMIN, None), dep(2, 5), dist(ADMIN, None)], inst_funds: vec![(2, 324), (1, 650)] }));
     }
     c
 }
@@ -601,7 +690,7 @@ fn boundary(rng: &mut Rng) -> Vec<Case> {
         ],
     ));
     // immutable group (no group admin)
-    c.push(Case::Hist(Hist { mode: Mode::Existing, admin: None, gadmin: None, members: vec![mem(1, 1), mem(2, 2)], ops: vec![upd(vec![mem(3, 1)], vec![]), dep(3, 10), dist(&member_name(2), None)] }));
+    c.push(Case::Hist(Hist { mode: Mode::Existing, admin: None, gadmin: None, members: vec![mem(1, 1), mem(2, 2)], ops: vec![upd(vec![mem(3, 1)], vec![]), dep(3, 10), dist(&member_name(2), None)], inst_funds: vec![] }));
     c
 }
 
@@ -731,7 +820,12 @@ fn random_hist(rng: &mut Rng, pool: &[u128], stored: &[Option<(String, String)>]
             }
         }
     }
-    Case::Hist(Hist { mode, admin, gadmin: some(GADMIN), members, ops })
+    let inst_funds = match rng.below(6) {
+        0 => vec![(rng.below(4) as usize, total(&members).max(1) * rng.range(1, 7) as u128 + rng.below(50) as u128)],
+        1 => vec![(0, 1 + rng.below(5000) as u128), (2, 1 + rng.below(1_000_000) as u128)],
+        _ => vec![],
+    };
+    Case::Hist(Hist { mode, admin, gadmin: some(GADMIN), members, ops, inst_funds })
 }
 
 fn gen_cases(a: &Args) -> Vec<Case> {
@@ -747,6 +841,7 @@ fn gen_cases(a: &Args) -> Vec<Case> {
     let stored = stored_pool(&code);
     let mut cases = corpus();
     cases.extend(migration_corpus(&code));
+    cases.extend(funded_corpus(&code));
     cases.extend(boundary(&mut rng));
     let nrand = if a.thorough() { 4000 } else { 220 };
     for _ in 0..nrand {
